@@ -281,7 +281,7 @@ namespace sbepp
 #define SBEPP_SIZE_CHECK(begin, end, offset, size) \
     SBEPP_ASSERT(                                  \
         (begin) && ((begin) <= (end))              \
-        && (((offset) + (size)) <= static_cast<std::size_t>((end) - (begin))))
+        && (((offset) + (size)) <= static_cast< ::std::size_t>((end) - (begin))))
 
 //! @brief The main `sbepp` namespace
 namespace sbepp
